@@ -9,8 +9,8 @@ a bare `free` the NULL pointer.  `probe=1` additionally prints whether the absol
 multiple of the alignment boundary (known finding M6, only in corpus/dpool/defect_M6_align32.ops).
 
 Main streams use alignment boundaries {1,2,4,8,16} (M6: absolute alignment for larger boundaries
-depends on the allocator) and calloc products that fit in size_t (same library finding as the
-static pool: corpus/dpool/defect_calloc_overflow.ops).  `fail=` only with focus "all".
+depends on the allocator).  calloc products that overflow size_t are included (NULL since the
+overflow guard was added; corpus/dpool/calloc_overflow.ops).  `fail=` only with focus "all".
 """
 import itertools
 
@@ -143,11 +143,11 @@ class DpoolGen:
                     fail = " fail=1" if rng.random() < p_fail else ""
                     if rng.random() < 0.3:
                         if sz > 2**32:
-                            a, b = rng.choice([(1, sz), (sz, 1), (0, sz), (sz, 0)])
+                            a, b = rng.choice([(1, sz), (sz, 1), (0, sz), (sz, 0), (2**32, 2**32), (2**63, 2),
+                                               (2**63 + 1, 2), (SIZE_MAX, SIZE_MAX), (3, sz), (sz, 2)])
                         else:
                             d = rng.choice([1, 2, 4]) if sz % 4 == 0 and sz else 1
                             a, b = (d, sz // d) if rng.random() < 0.5 else (sz // d, d)
-                        assert a * b <= SIZE_MAX
                         ops.append(f"calloc {a} {b}{fail}")
                         if not fail:
                             sim.alloc(a * b)
